@@ -33,7 +33,7 @@ def c14(ctx):
     bdir = build.build("ossl", ("softhsm2", "softhsm2-util"))
     lib, util = build.libpath(bdir), build.utilpath(bdir)
     quick = ctx.tier == "quick"
-    wide = C(Acts='{"init", "restart", "util", "sess", "pin", "obj"}', MaxH="2", MaxObj="2" if quick else "3",
+    wide = C(Acts='{"init", "restart", "util", "sess", "pin", "obj"}', MaxH="2", MaxObj="2",
              PinSyms='{"A", "B"}', NewPins='{"A", "B"}', AsciiPins='{"U1"}', Labs='{"L1"}',
              MaxTok="2" if quick else "3")
     res, _ = pipeline.model_check(ctx, "MC_Tok", "c14-wide", wide, invariants=INV, properties=PROPS, timeout=3000,
@@ -49,15 +49,14 @@ def c14(ctx):
         dict(name="c14-util", constants=c2, trace_constants=T(c2, obs), driver_args=[lib, util, "file", "U1,U2,B"]),
         dict(name="c14-iso", constants=c3, trace_constants=T(c3, obs), driver_args=[lib, util, "file", "A,B"]),
     ]
-    if quick:
-        # the PIN status flags multiply the states: the quick tier replays a bounded number of walks per graph
-        for g in graphs:
-            g["maxwalks"] = 1500
+    # the PIN status flags multiply the states: a bounded number of walks per graph is replayed
+    for g in graphs:
+        g["maxwalks"] = 1500 if quick else 8000
     if not quick:
         c4 = C(MaxTok="3", Acts='{"init", "restart", "util", "sess", "obj"}', MaxH="1", MaxObj="2", Labs='{"L1"}',
                PinSyms='{"U1", "B"}', NewPins='{"U1"}')
         graphs.append(dict(name="c14-three", constants=c4, trace_constants=T(c4, obs),
-                           driver_args=[lib, util, "file", "U1,B"]))
+                           driver_args=[lib, util, "file", "U1,B"], maxwalks=8000))
         for g in list(graphs):
             g["variants"] = [("", []), ("-db", [])]
         # the SQLite backend: same graphs, objectstore.backend = db
@@ -94,12 +93,11 @@ def c04(ctx):
         dict(name="c04-near", constants=c2, trace_constants=T(c2, obs), driver_args=[lib, util, "file", allpins],
              variants=[("-k%d" % i, [], 1000 * i) for i in range(3 if quick else 50)]),
     ]
-    if quick:
-        for g in graphs:
-            g["maxwalks"] = 1500
+    for g in graphs:
+        g["maxwalks"] = 1500 if quick else 8000
     if not quick:
         graphs.append(dict(name="c04-hist-db", constants=c1, trace_constants=T(c1, obs),
-                           driver_args=[lib, util, "db", allpins]))
+                           driver_args=[lib, util, "db", allpins], maxwalks=8000))
     r = pipeline.graphs_replay(ctx, "MC_Tok", "Trace_Tok", "vf.drv_tok", graphs, INV, PROPS, maxlen=40)
     fill(ctx, res, r, dict(
         pin_symbols=allpins.split(","),
